@@ -549,7 +549,7 @@ class C26(Check):
         return scenarios(tier, "inproc")
 
     def examples(self, tier):
-        return 8 if tier == "quick" else 250
+        return 8 if tier == "quick" else 150
 
     def budget_s(self, tier):
         return 1500.0 if tier == "quick" else 3000.0
@@ -564,6 +564,8 @@ class C26(Check):
             "exhaustive": bool(labels.get("scenario-exhaustive", 0)) and incomplete == 0 and not merged["budget_hit"],
             "exhaustive_scope": "per scenario: every counted fault point (operation x ordinal x fault kind) was "
                                 "executed and the fault verifiably fired; scenarios themselves are sampled",
+            # oracle evaluations actually run: one per fault-free run (scenario / replay file) + one per fault run
+            "evaluations": int(merged["evaluations"] + n_exec),
             "scenarios": int(labels.get("scenario-exhaustive", 0) + incomplete),
             "fault_executions": int(n_exec),
             "nontrivial_fault_executions": int(labels.get("nt-fault", 0)),
